@@ -506,9 +506,15 @@ class InventoryTree(Tree):
         from bzrformats import versionedfile
 
         last_revision = tree_revision
-        parent_keys = [
-            (file_id, t.get_file_revision(path)) for t in self._iter_parent_trees()
-        ]
+        # ``path`` is this tree's path; a parent tree may have the file under
+        # another name (uncommitted rename) or not at all (uncommitted add).
+        parent_keys = []
+        for t in self._iter_parent_trees():
+            try:
+                parent_path = t.id2path(file_id)
+            except NoSuchId:
+                continue
+            parent_keys.append((file_id, t.get_file_revision(parent_path)))
         with self.get_file(path) as f:
             vf.add_content(
                 versionedfile.FileContentFactory(
